@@ -62,6 +62,13 @@ func RunC09P(s *simrt.Sim, a *harness.Args, r *harness.Result) {
 		rewrite["alias@a.example"] = []string{"u2@a.example"}
 		rewrite["u2@a.example"] = []string{"real2@a.example"}
 	}
+	if !chain && s.T.Choose(st, 3) == 0 {
+		// a rewrite whose result differs from what the client supplied only in
+		// letter case (a normalising alias table): still a rewrite - the result
+		// is reported under the client's spelling
+		clientRcpts[1] = "Tester@a.example"
+		rewrite["Tester@a.example"] = []string{"tester@a.example"}
+	}
 	mod := &actors.ScriptedModifier{Label: "rw"}
 	mod.PlanFor = func(*module.MsgMetadata) *actors.ModPlan { return &actors.ModPlan{Rewrite: rewrite} }
 	module.RegisterInstance(mod, nil)
